@@ -59,7 +59,7 @@ def main():
     for (kind, b, p), line, io, mo in zip(cases, lines, impl, mod):
         if io.startswith('ERR'):
             rejected += 1
-            if p is not None and nviol < 10:
+            if p is not None and nviol < 300:
                 # the generator only builds RFC-valid parts: a rejection is a parser defect (C01's business) -- report it here too
                 nviol += 1
                 R.violation({'kind': 'valid reference rejected by the parser', 'input': b.decode('utf-8', 'replace'), 'case': line}, no_input=False)
@@ -99,7 +99,7 @@ def main():
             problems.append('owned view disagrees with the borrowed view')
         if comp != '1':
             problems.append('a returned component is not a valid value of its component type')
-        if problems and nviol < 10:
+        if problems and nviol < 300:
             nviol += 1
             R.violation({'kind': 'component accessors do not return the RFC 3986 decomposition', 'type': kind, 'input': b.decode('utf-8', 'replace'),
                          'input_hex': b.hex(), 'problems': problems, 'implementation': io, 'model': mo, 'replay': "printf '%s\\n' | %s" % (line.replace('\t', '\\t'), harness)},
